@@ -69,6 +69,7 @@ def cases(draw, two_d=False):
 
 
 def make_backend(case, path, total=0):
+    """(total: number of requests of the undisturbed run, for the completion-order controller)"""
     if case["backend"] == "local":
         return iomodel.CountingFile(path)
     ctl = iomodel.CompletionController(case.get("ranks") or [], total) if case.get("ranks") else None
@@ -198,6 +199,8 @@ def run_plan(case, ctx, path, T, op, positions_kinds, L):
 
 
 def run_case(case, ctx):
+    if "then" in case and "a" not in case:
+        return run_open_case(case, ctx)
     path, T = get_file(case["file"], ctx)
     op = ops.concretise(T, case["a"])
     if op is None or op["m"] not in ops.methods_for(T, reader_only=True):
@@ -218,6 +221,64 @@ def run_case(case, ctx):
     hows = sorted({f["how"] for f in case.get("after") or []})
     return {"sig": [op["m"], case["backend"], pk[0][1], pos, fam, len(pk), bool(case.get("ranks")), hows] if (nontriv and res != "not-reached") else None,
             "labels": [res, op["m"], case["backend"], pk[0][1]] + ["after:" + h for h in hows] + (["with-earlier-call"] if case.get("pre") else [])}
+
+
+# ---- faults while the reader is being opened (header blocks; with preload the whole data section) -------
+@st.composite
+def open_cases(draw, two_d=False):
+    desc = draw(files.spec_file_2d(max_voxels=60_000)) if two_d else \
+        draw(files.spec_file_3d(max_voxels=120_000, versions=["0.2.8", "0.2.8", "0.2.1"]))
+    return {"file": desc, "backend": draw(st.sampled_from(["local", "blob"])), "preload": draw(st.sampled_from([True, True, False])),
+            "fault": [draw(st.floats(0, 1, exclude_max=True)), draw(st.sampled_from(KINDS)), draw(st.floats(0, 1, exclude_max=True))],
+            "then": [draw(ops.abstract_op(METHODS)) for _ in range(draw(st.integers(1, 3)))], "ranks": []}
+
+
+def run_open_case(case, ctx):
+    from seismic_zfp.read import SgzReader
+    path, T = get_file(case["file"], ctx)
+    # the undisturbed open: which range reads does it make?
+    b0 = make_backend(case, path)
+    b0.arm(None)
+    r0 = SgzReader(b0, preload=case["preload"])
+    L = [(o, q) for o, q, _ in b0.log]
+    r0.close()
+    b0.close()
+    if not L:
+        return {"sig": None, "labels": ["open-without-io"]}
+    u, kind, frac = case["fault"]
+    idx = min(len(L) - 1, int(u * len(L)))
+    backend = make_backend(case, path)
+    backend.arm({L[idx]: ("short", frac) if kind == "short" else kind})
+    try:
+        try:
+            r = SgzReader(backend, preload=case["preload"])
+        except Exception:
+            return {"sig": ["open", case["backend"], case["preload"], kind, idx == len(L) - 1, "raised"], "labels": ["open-raised", case["backend"], kind]}
+        injected = [e for e in backend.log if e[2] != e[1]]
+        backend.arm(None)
+        H = ops.Handles(path, T, reader=r)
+        try:
+            for a in case["then"]:
+                op = ops.concretise(T, a)
+                if op is None or op["m"] not in ops.methods_for(T, reader_only=True):
+                    continue
+                try:
+                    got = ops.perform(H, op)
+                except Exception:
+                    continue        # a reader that came out of a faulty open may refuse to serve; it may not invent
+                k_, want = ops.expected(T, op)
+                try:
+                    ops.compare(k_, got, want, op)
+                except Violation as v:
+                    raise Violation(f"fault-at-open-turned-into-data:{op['m']}:{kind}",
+                                    f"{case['backend']} backend, preload={case['preload']}: {kind} fault on read {L[idx]} (#{idx + 1} of {len(L)}) while opening; "
+                                    f"the reader opened and {op} returned a wrong result ({v.detail[:160]})")
+        finally:
+            r.close()
+    finally:
+        backend.close()
+    return {"sig": ["open", case["backend"], case["preload"], kind, idx == len(L) - 1, "opened"] if injected else None,
+            "labels": ["open-survived" if injected else "open-fault-not-reached", case["backend"], kind]}
 
 
 # ---- complete enumeration of positions x kinds for one call per method on fixed files -------------
@@ -282,7 +343,11 @@ def shard_main(ctx):
         return
     if not ctx.explore("faults3d", cases(), run_case, ctx.n(250, 3000)):
         return
-    ctx.explore("faults2d", cases(two_d=True), run_case, ctx.n(80, 800))
+    if not ctx.explore("faults2d", cases(two_d=True), run_case, ctx.n(80, 800)):
+        return
+    if not ctx.explore("open3d", open_cases(), run_case, ctx.n(60, 600)):
+        return
+    ctx.explore("open2d", open_cases(two_d=True), run_case, ctx.n(20, 200))
 
 
 def replay(case, ctx):
